@@ -6,8 +6,10 @@
    edge between a vertex of one and a vertex of the other makes the graph connected;
    (4) soundness of the spanning-tree certificate and of the symmetry check that are
    evaluated, extracted, on every result connect_graph produces in the harness.
-   NOT proved: termination of the alternating restricted searches (validated under a
-   watchdog per call), the true-distance clause (validated against float64 references). *)
+   (5) termination of the alternating loop of find_component_connection_edge as repaired (end of
+   this file), with the restricted searches and the candidate-set bookkeeping as an oracle.
+   NOT proved: that each restricted search itself returns (a bounded graph traversal; observed
+   under a watchdog per call), the true-distance clause (validated against float64 references). *)
 From Coq Require Import ZArith List Bool Lia Relations.
 From PV Require Import Base Rng Connect C20Proofs.
 Import ListNotations.
@@ -69,3 +71,38 @@ Example C20_cert_example :
   conn_cert_chk 3 [(0,1);(1,0);(1,2);(2,1)]%nat [0;0;1]%nat [0;1;2]%nat = true /\
   conn_cert_chk 3 [(0,1);(1,0)]%nat [0;0;1]%nat [0;1;2]%nat = false.
 Proof. vm_compute. split; reflexivity. Qed.
+
+(* ---- termination of the alternating restricted searches (added after the repair) ----
+   The loop of find_component_connection_edge, with the searches and the candidate-set bookkeeping
+   as an arbitrary oracle that only ever reports distances from the finite set S of distances
+   between the two components, returns after at most 2 * |{d in S : d < start}| + 3 searches:
+   the best distance can only decrease, and two searches in a row without improvement end the
+   loop.  (Before the repair the loop condition was `changed[0] or changed[1]` alone, which an
+   oracle that keeps swapping tied candidates holds true for ever: C20_unrepaired_loop_diverges.) *)
+Theorem C20_alternating_loop_terminates :
+  forall (S : list Z) (oracle : nat -> list Z * bool),
+    (forall i d, In d (fst (oracle i)) -> In d S) ->
+    forall fuel best, (2 * count_ltL S best + 2 < fuel)%nat ->
+      alt_loop oracle fuel 0 best 0 true <> None.
+Proof.
+  intros S oracle H fuel best Hf. apply (alt_loop_terminates S oracle H); lia.
+Qed.
+Print Assumptions C20_alternating_loop_terminates.
+
+(* the unrepaired loop (no stalled counter = the counter never reaches 2) with an oracle that reports
+   no improvement and keeps the candidate sets changing exhausts every amount of fuel *)
+Fixpoint old_loop (oracle : nat -> list Z * bool) (fuel : nat) (i : nat) (best : Z) (changed : bool) : option (Z * nat) :=
+  if negb changed then Some (best, i)
+  else match fuel with
+       | O => None
+       | S f => let '(ds, ch') := oracle i in old_loop oracle f (S i) (fold_left Z.min ds best) ch'
+       end.
+Theorem C20_unrepaired_loop_diverges : forall fuel i best, old_loop (fun _ => ([best], true)) fuel i best true = None.
+Proof.
+  induction fuel as [|f IH]; intros i best; cbn [old_loop negb]; [reflexivity|].
+  cbn [fold_left]. rewrite Z.min_id. apply IH.
+Qed.
+
+Example C20_loop_example :
+  alt_loop (fun i => (if Nat.ltb i 2 then [9 - Z.of_nat i] else [8], true)) 50 0 100 0 true = Some (8, 4%nat).
+Proof. vm_compute. reflexivity. Qed.
